@@ -173,9 +173,29 @@ theorem chkBasics_total (h : CH) : ∃ r, chkBasics h = .ok r := by
   unfold chkBasics alertIf done
   finish_chk
 
-theorem chkSigAlgs_total (h : CH) (hd : h.sigAlgs.isDup = false) : ∃ r, chkSigAlgs h = .ok r := by
-  unfold chkSigAlgs
+theorem chkSupportedVersions_total (h : CH) (hd : h.supportedVersions.isDup = false) :
+    ∃ r, chkSupportedVersions h = .ok r := by
+  unfold chkSupportedVersions
   rw [withExt_ok _ _ hd]
+  unfold alertIf done
+  finish_chk
+
+/-- an extension without payload is answered by the first check -/
+theorem chkSupportedVersions_presentNone (h : CH) (hn : h.supportedVersions.isPresentNone = true) :
+    chkSupportedVersions h = .ok (some (dDecodeError, "Malformed supported_versions extension")) := by
+  unfold chkSupportedVersions
+  cases hs : h.supportedVersions with
+  | dup => rw [hs] at hn; exact Bool.noConfusion hn
+  | absent => rw [hs] at hn; exact Bool.noConfusion hn
+  | present vs =>
+    cases vs with
+    | none => rfl
+    | some l => rw [hs] at hn; exact Bool.noConfusion hn
+
+theorem chkSigAlgs_total (h : CH) (hd : h.sigAlgs.isDup = false) (hv : h.supportedVersions.isDup = false) :
+    ∃ r, chkSigAlgs h = .ok r := by
+  unfold chkSigAlgs
+  rw [withExt_ok _ _ hv, withExt_ok _ _ hd]
   unfold alertIf done
   finish_chk
 
@@ -217,12 +237,24 @@ theorem chkVersion_total (s : SrvSettings) (h : CH) (hd : h.supportedVersions.is
   simp only [alertIf, done]
   finish_chk
 
-theorem chkEcPointFormats_total (h : CH) (hd : h.supportedVersions.isDup = false)
+theorem offers13_ok (h : CH) (hd : h.supportedVersions.isDup = false)
+    (hn : h.supportedVersions.isPresentNone = false) : ∃ b, offers13 h = .ok b := by
+  unfold offers13
+  cases hs : h.supportedVersions with
+  | dup => rw [hs] at hd; exact Bool.noConfusion hd
+  | absent => exact ⟨_, rfl⟩
+  | present vs =>
+    cases vs with
+    | none => rw [hs] at hn; exact Bool.noConfusion hn
+    | some l => exact ⟨_, rfl⟩
+
+theorem chkEcPointFormats_total (s : SrvSettings) (h : CH) (hd : h.supportedVersions.isDup = false)
     (hn : h.supportedVersions.isPresentNone = false) (he : h.ecPointFormats.isDup = false) :
-    ∃ r, chkEcPointFormats h = .ok r := by
+    ∃ r, chkEcPointFormats s h = .ok r := by
   unfold chkEcPointFormats
   obtain ⟨v, hv⟩ := realVersion_total h hd hn
-  rw [hv]
+  obtain ⟨o, ho⟩ := offers13_ok h hd hn
+  rw [hv, ho]
   simp only
   split
   · rw [withExt_ok _ _ he]
@@ -233,8 +265,14 @@ theorem chkEcPointFormats_total (h : CH) (hd : h.supportedVersions.isDup = false
       simp only [Ext.toOption]
       cases f with
       | none => exact ⟨_, rfl⟩
-      | some l => simp only [alertIf, iterOpt, done]; finish_chk
+      | some l => simp only [alertIf, optEmpty, iterOpt, done]; finish_chk
   · exact ⟨_, rfl⟩
+
+theorem chkCertTypeExt_total (h : CH) (hd : h.certType.isDup = false) : ∃ r, chkCertTypeExt h = .ok r := by
+  unfold chkCertTypeExt
+  rw [withExt_ok _ _ hd]
+  unfold alertIf done
+  finish_chk
 
 theorem chkVersionNegotiation_total (s : SrvSettings) (h : CH) (hd : h.supportedVersions.isDup = false)
     (hn : h.supportedVersions.isPresentNone = false) : ∃ r, chkVersionNegotiation s h = .ok r := by
@@ -332,6 +370,7 @@ theorem chkPsk_total (h : CH) (k : Bool → Chk) (hk : ∀ b, ∃ r, k b = .ok r
   generalize h.pha.toOption = pha
   generalize h.pskModes.toOption = modes
   generalize h.psk.toOption = psk
+  generalize h.keyShare.toOption = ks
   rcases psk with _ | ⟨ids, bs, last⟩
   · rcases modes with _ | _ | m <;>
       simp only [alertIf, optEmpty] <;>
@@ -378,62 +417,40 @@ theorem chkTls13_total (h : CH) (hd : h.supportedVersions.isDup = false)
 
 
 theorem shkTls13_total (c : CliState) (h : SH) (hd : h.supportedVersions.isDup = false)
-    (h1 : h.keyShare.isDup = false) (h2 : h.psk.isDup = false)
-    (hsel : ∀ rv, shRealVersion h = .ok rv → 0x0303 < rv → h.selectionOk c = true) :
+    (h1 : h.keyShare.isDup = false) (h2 : h.psk.isDup = false) :
     ∃ r, shkTls13 c h = .ok r := by
   unfold shkTls13
-  have hrv : ∃ rv, shRealVersion h = .ok rv := by
-    unfold shRealVersion
-    split
-    · cases hs : h.supportedVersions with
-      | dup => rw [hs] at hd; exact Bool.noConfusion hd
-      | absent => exact ⟨_, rfl⟩
-      | present v => exact ⟨_, rfl⟩
-    · exact ⟨_, rfl⟩
-  obtain ⟨rv, hr⟩ := hrv
+  obtain ⟨rv, hr⟩ := shRealVersion_total h hd
   rw [hr]
   simp only
   split
   · exact ⟨_, rfl⟩
-  · rename_i hlt
-    have hs := hsel rv hr (Nat.lt_of_not_le hlt)
-    rw [withExt_ok _ _ h1, withExt_ok _ _ h2]
-    unfold SH.selectionOk at hs
-    cases hk : h.keyShare with
-    | dup => rw [hk] at h1; exact Bool.noConfusion h1
-    | absent =>
-      cases hp : h.psk with
-      | dup => rw [hp] at h2; exact Bool.noConfusion h2
-      | absent => simp [hk, hp, Ext.toOption] at hs
-      | present sel =>
-        rcases sel with _ | i
-        · simp [hk, hp] at hs
-        · cases hn : c.pskIdsSent with
-          | none => simp [hk, hp, hn] at hs
-          | some n =>
-            simp only [hk, hp, hn, Ext.toOption, Bool.true_and, Bool.and_eq_true, decide_eq_true_eq] at hs
-            simp [Ext.toOption, done, hs.1]
-    | present ks =>
-      rcases ks with _ | g
-      · simp [hk] at hs
-      · cases hsn : c.sharesSent with
-        | none => simp [hk, hsn] at hs
-        | some sent =>
-          cases hp : h.psk with
-          | dup => rw [hp] at h2; exact Bool.noConfusion h2
-          | absent =>
-            simp only [hk, hp, hsn, Ext.toOption, Bool.and_eq_true] at hs
-            have hg : g ∈ sent := by simpa using hs.1.1
-            simp [Ext.toOption, done, hg]
-          | present sel =>
-            rcases sel with _ | i
-            · simp [hk, hp, hsn] at hs
-            · cases hn : c.pskIdsSent with
-              | none => simp [hk, hp, hsn, hn] at hs
-              | some n =>
-                simp only [hk, hp, hsn, hn, Ext.toOption, Bool.and_eq_true, decide_eq_true_eq] at hs
-                have hg : g ∈ sent := by simpa using hs.1.1
-                simp [Ext.toOption, done, hg, hs.1.2]
+  · rw [withExt_ok _ _ h1, withExt_ok _ _ h2]
+    generalize h.keyShare.toOption = ks
+    generalize h.psk.toOption = psk
+    rcases ks with _ | _ | g <;> rcases psk with _ | _ | i <;>
+      rcases hs : c.sharesSent with _ | sent <;> rcases hp : c.pskIdsSent with _ | n <;>
+      simp only [alertIf, done, Option.isNone, Bool.and_true, Bool.and_false, Bool.and_self] <;>
+      repeat' (first | exact ⟨_, rfl⟩ | contradiction | (cases hc : sent.contains g <;> simp only [Bool.not_false, Bool.not_true]) | split)
 
+/-- a passing run answered `none` in every block -/
+theorem runBlocks_pass_inv (bs : List (Unit → Chk)) (h : runBlocks bs = .ok .pass) :
+    ∀ b ∈ bs, b () = .ok none := by
+  induction bs with
+  | nil => intro b hb; cases hb
+  | cons b0 tl ih =>
+    intro b hb
+    unfold runBlocks at h
+    cases hb0 : b0 () with
+    | error e => rw [hb0] at h; cases h
+    | ok r =>
+      rw [hb0] at h
+      cases r with
+      | some p => obtain ⟨d, m⟩ := p; simp only at h; cases h
+      | none =>
+        simp only at h
+        cases hb with
+        | head => exact hb0
+        | tail _ hmem => exact ih h b hmem
 
 end Tls.ErrPath
